@@ -514,6 +514,39 @@ def run(ctx, rep):
                   what="the keep counter is decremented whenever a period's newest snapshot is counted, independently of the keep-within test" if not bad else
                        "the keep counter is only decremented depending on the keep-within test: 'last N / newest N periods' would no longer be counted from the newest snapshot")
     rep.count("C09.a: days enumerated", len(days()))
+    # ---- C09.e: the counter protocol -----------------------------------------------------------------------------
+    rep.rule("C09.e", "counter protocol: a period counts iff its counter is non-zero; positive counters are decremented by exactly one; `last` follows every snapshot")
+
+    def counter_cmp(op, k):
+        def pred(x):
+            if x[0] != "bin" or x[1] != op:
+                return False
+            a, b = x[2], x[3]
+            return b == ("const", k) and "i32" in repr(M.locals) and a[0] in ("path", "proj", "phi", "call", "unknown") or (b == ("const", k))
+        return pred
+    for i, bi in enumerate(dec, 1):
+        # the decrement subtracts the constant 1
+        subs = [s_ for s_ in M.blocks[bi]["s"] if s_[0] == "=" and s_[2][0] == "bin" and s_[2][1] in ("SubWithOverflow", "Sub") and "i32" in s_[2][4]]
+        by1 = bool(subs) and all(flow.expr_of(M, s_[2][3], bi) == ("const", 1) for s_ in subs)
+        rep.check("C09.e", f"decrement-by-one/{i}", by1, where=span_str(subs[0][3]) if subs else M.loc(), what="a keep counter is decremented by exactly 1 per counted period")
+        ok_gt = only_via(M, bi, counter_cmp("Gt", 0), True)
+        rep.check("C09.e", f"decrement-iff-positive/{i}", ok_gt, where=span_str(subs[0][3]) if subs else M.loc(),
+                  what="the counter is decremented exactly when it is > 0 (negative = unlimited stays untouched, the last remaining count is used up)" if ok_gt else
+                       "the decrement is not guarded by `counter > 0` (a different threshold keeps or drops one period too many)")
+        ok_ne = only_via(M, bi, counter_cmp("Ne", 0), True)
+        rep.check("C09.e", f"counted-iff-nonzero/{i}", ok_ne, where=span_str(subs[0][3]) if subs else M.loc(), what="a period is counted (reason recorded, counter used) only while its counter is non-zero")
+    # the within rule compares snapshot time + span against the newest snapshot's time, in that direction
+    cmpc = [(bb, t) for bb, t in M.calls() if "callee" in t and re.search(r"PartialOrd(<.*>)?(>)?::(gt|ge|lt|le)$", callee(t) + " " + callee_decl(t)) and "Zoned" in (callee(t) + " ".join(t.get("gargs") or []))]
+    okw = False
+    for bb, t in cmpc:
+        op = re.search(r"::(gt|ge|lt|le)$", callee_decl(t)).group(1)
+        l0 = repr(flow.expr_of(M, t["args"][0], bb))
+        l1 = repr(flow.expr_of(M, t["args"][1], bb))
+        if op in ("gt", "ge") and "saturating_add" in l0 and "('arg', 5)" in l1 and "saturating_add" not in l1:
+            okw = True
+        if op in ("lt", "le") and "saturating_add" in l1 and "('arg', 5)" in l0 and "saturating_add" not in l0:
+            okw = True
+    rep.check("C09.e", "within-direction", okw, where=M.loc(), what="keep-within: snapshot time + span is compared against the NEWEST snapshot's time (kept if it reaches beyond it)")
 
     # ---- C09.c -------------------------------------------------------------------------------------
     A = prog.find1(r"^rustic_core::commands::forget::KeepOptions::apply$")
@@ -548,6 +581,19 @@ def run(ctx, rep):
             rep.check("C09.c", "keep-before-unchanged", false_edge_only(mk[0], du[0]), where=where(A, mk[0]), what="delete_unchanged is consulted only if must_keep is false (a protected snapshot is not removed as 'unchanged')")
             rep.check("C09.c", "delete-before-unchanged", false_edge_only(md[0], du[0]), where=where(A, md[0]), what="delete_unchanged is consulted only if must_delete is false")
             rep.check("C09.c", "unchanged-before-matches", mt[0] not in A.reachable_from(0, cut_edges=[(du[0], x) for x in A.succ(du[0])]) , where=where(A, du[0]), what="keep rules are consulted only after the delete_unchanged test")
+    # `last` follows every processed snapshot (the period comparison is always against the immediately newer snapshot)
+    la = [bi for bi, blk in enumerate(A.blocks) for s_ in blk["s"] if s_[0] == "=" and s_[2][0] == "agg" and s_[2][1][0] == "adt" and s_[2][1][2] == "Some" and "SnapshotFile" in A.locals[s_[1][0]]]
+    if len(mt) == 1:
+        lp = [(h, l_, C.loop_blocks(A, h, l_)) for (l_, h) in C.back_edges(A)]
+        mine = sorted([x for x in lp if mt[0] in x[2]], key=lambda x: len(x[2]))
+        okl = False
+        if mine and la:
+            h0 = mine[0][0]
+            latches = [l_ for (l_, h) in C.back_edges(A) if h == h0]
+            # no way round the loop avoids every `last = Some(sn)` assignment
+            okl = not any(C.reachable_between(A, [h0], l_, cut_blocks=la) for l_ in latches if l_ not in la)
+        rep.check("C09.e", "last-follows-every-snapshot", okl, where=A.loc(), what="`last` is set to every processed snapshot (kept or not): periods are compared with the immediately newer snapshot" if okl else
+                  "`last` is not updated on every iteration: the period comparison skips snapshots and counts a period twice")
     # sort: newest first = cmp(..).reverse()
     cl = [c for c in prog.closures_of(A) if any(re.search(r"Ordering::reverse$", callee(t)) for _, t in c.calls())]
     has_cmp = any(any(re.search(r"SnapshotFile as std::cmp::Ord>::cmp$", callee(t)) for _, t in c.calls()) for c in cl)
